@@ -2,6 +2,10 @@
 import CoreDhcp.Props.C20
 import CoreDhcp.Props.C02
 import CoreDhcp.Props.C03
+import CoreDhcp.Props.C04
+import CoreDhcp.Props.C05
+import CoreDhcp.Props.C06
+import CoreDhcp.Props.C07
 open CoreDhcp
 #print axioms C20_offset_exact
 #print axioms C20_offset_symm
@@ -15,3 +19,18 @@ open CoreDhcp
 #print axioms C03_holds
 #print axioms C03_restore
 #print axioms C03_D7_prefix_refuted
+#print axioms C04_alloc6
+#print axioms C04_alloc4
+#print axioms C05_alloc6
+#print axioms C05_alloc4
+#print axioms C05_noaddr_unchanged6
+#print axioms C05_noaddr_unchanged4
+#print axioms C05_progress6
+#print axioms C05_progress4
+#print axioms C06_alloc6
+#print axioms C06_alloc4
+#print axioms C06_error_unchanged6
+#print axioms C06_error_unchanged4
+#print axioms C06_D2_prefix_refuted
+#print axioms C07_alloc6
+#print axioms C07_alloc4
